@@ -100,35 +100,47 @@ fn h_ecc_wrap_unwrap() {
 
 //@ props: C03 C07
 //@ functions: crypto::ecc::retrieve_key (tag check before a key is returned)
-//@ bounds: header with 2 wrapped-key entries whose key bytes and tags are ARBITRARY (attacker-chosen); arbitrary candidate private key and ephemeral public key
+//@ bounds: header with 2 wrapped-key entries whose key bytes and tags are ARBITRARY (attacker-chosen: stored tag = tag the candidate's wrapping key assigns to the stored bytes XOR an arbitrary 128-bit difference); arbitrary candidate private key and ephemeral public key
 //@ stubs: model x25519 / HKDF / aes / ctr / ghash; alloc::fmt::format
 //@ outside: strength of AES-GCM as a MAC (here: the model tag function)
 //@ timeout: 1500
-//@ replay: verif_replay_ecc::ecc_unwrap_forged
+//@ replay: verif_replay_ecc::ecc_unwrap_forged _:skip128 d0lo:u64 d0hi:u64 d1lo:u64 d1hi:u64
 #[kani::proof]
 #[kani::unwind(34)]
 #[kani::stub(alloc::fmt::format, nofmt)]
 fn h_ecc_unwrap_only_verified() {
     let sk: [u8; 32] = kani::any();
     let public: [u8; 32] = kani::any();
-    let e0 = KeyAndTag { key: kani::any(), tag: kani::any() };
-    let e1 = KeyAndTag { key: kani::any(), tag: kani::any() };
-    let mut v = Vec::with_capacity(2);
-    v.push(e0);
-    v.push(e1);
-    let persist = MultiRecipientPersistent { public, encrypted_keys: v };
+    let k0: [u8; 32] = kani::any();
+    let k1: [u8; 32] = kani::any();
+    // difference between the stored tag and the one the candidate key assigns (0 = the entry verifies)
+    let (d0lo, d0hi): (u64, u64) = (kani::any(), kani::any());
+    let (d1lo, d1hi): (u64, u64) = (kani::any(), kani::any());
     let wk = ref_wrap_key(&sk, &public);
     // tag the model GCM assigns to each stored ciphertext under the candidate's wrapping key
-    let tag_of = |ct: &[u8; 32]| -> [u8; 16] {
+    let tag_of = |ct: &[u8; 32], lo: u64, hi: u64| -> [u8; 16] {
         let mut c = crate::crypto::aesgcm::verif_aesgcm::model_build(&wk, ECIES_NONCE);
         let mut d = *ct;
         let t = c.decrypt(&mut d);
         let mut o = [0u8; 16];
         o.copy_from_slice(&t[..]);
+        let (l, h) = (lo.to_le_bytes(), hi.to_le_bytes());
+        let mut i = 0;
+        while i < 8 {
+            o[i] ^= l[i];
+            o[8 + i] ^= h[i];
+            i += 1;
+        }
         o
     };
-    let ok0 = tag_of(&persist.encrypted_keys[0].key) == persist.encrypted_keys[0].tag;
-    let ok1 = tag_of(&persist.encrypted_keys[1].key) == persist.encrypted_keys[1].tag;
+    let e0 = KeyAndTag { key: k0, tag: tag_of(&k0, d0lo, d0hi) };
+    let e1 = KeyAndTag { key: k1, tag: tag_of(&k1, d1lo, d1hi) };
+    let mut v = Vec::with_capacity(2);
+    v.push(e0);
+    v.push(e1);
+    let persist = MultiRecipientPersistent { public, encrypted_keys: v };
+    let ok0 = d0lo == 0 && d0hi == 0;
+    let ok1 = d1lo == 0 && d1hi == 0;
     kani::cover!(!ok0 && ok1, "only the second entry verifies");
     kani::cover!(!ok0 && !ok1, "no entry verifies");
     let r = retrieve_key(&persist, &StaticSecret::from(sk));
